@@ -194,6 +194,7 @@ def analyse_inner(src, paths=True):
     except SyntaxError as e:
         out["compiles"] = False
         out["compile_error"] = str(e)[:120]
+        return out
     out["new_names"] = new_names(src, code)
     out["unreserved"] = [n for n in out["new_names"] if not RESERVED.match(n)]
     ws, gs, wa, ga, wt, gt = census_rows(scfg, tree)
